@@ -185,7 +185,8 @@ def describe_delivery(sc, req, d):
 def run_once(ctx, res, seed, n, reqs, tag):
     pid = ctx['pid']
     binary = C.build_harness()
-    data, _ = C.run_harness(binary, ['c18', '-seed', str(seed), '-n', str(n), '-reqs', str(reqs)], pid, 'c18_%s.json' % tag)
+    data, _ = C.run_harness(binary, ['c18', '-seed', str(seed), '-n', str(n), '-reqs', str(reqs)] + (['-glue'] if tag == 'a' or tag == 'a0' else []), pid, 'c18_%s.json' % tag)
+    run_glue(ctx, res, data)
     lcases = []; dcases = []
     for sc in data['scenarios']:
         res.count('scenarios')
@@ -211,6 +212,11 @@ def run_once(ctx, res, seed, n, reqs, tag):
             res.count('own_notifications=%d' % min(len(own), 4)); res.count('foreign_notifications=%s' % ('0' if not foreign else '1-3' if foreign < 4 else '4+'))
             for r in (req.get('got') or []):
                 res.count('reply_read=' + kind_name(r))
+            pts = [e[1] for e in (req.get('events') or [])]
+            if 'requestreply.listen.final_skipped' in pts: res.count('overlap:final reply skipped because the channel was full (the D10 situation)')
+            if 'requestreply.listen.send_aborted' in pts: res.count('overlap:reply send abandoned because the context ended (listener was blocked on a full channel)')
+            if 'requestreply.listen.sub_closed' in pts: res.count('overlap:listener saw the closed subscription before ctx.Done')
+            if req.get('rest'): res.count('replies_left_unread_in_channel')
             big = len(req.get('stream') or []) > MAX_STREAM
             if big:
                 res.count('oversized_notification_streams')
@@ -271,6 +277,49 @@ def run_once(ctx, res, seed, n, reqs, tag):
         for c in (lcases[0], lcases[len(lcases) // 2], lcases[-1]):
             res.sample(describe_req(c[0], c[1]))
     return data
+
+def glue_term(g):
+    cfg = '(PCfg %s %s %s)' % (C.coq_bool(g['ack_errors']), C.coq_bool(g['modify'] != 0), C.coq_bool(g['errh'] != 0))
+    inp = '(PIn %s %s %s %s %s %s %s %s %s)' % (C.coq_bool(g['orig']), N(g['op']), N(g['res']), ('(Some %s)' % N(g['err_id'])) if g['err'] else 'None', N(g['nid']),
+                                                 C.coq_bool(g['modify'] != 2), C.coq_bool(g['topic_ok']), C.coq_bool(g['pub_ok']), C.coq_bool(g['errh'] == 1))
+    enc = C.coq_list(['(%s, %s)' % (N(g['enc'][0]), optN(g['enc'][1]))])
+    evs = []; bad = []
+    for e in g['events']:
+        k = e[0]
+        if k == 'call': evs.append('PCall')
+        elif k == 'publish':
+            if not e[6]: bad.append('reply published to a topic other than the reply topic')
+            evs.append('(PPublish (Notif %s %s %s %s %s))' % (N(e[1]), N(e[2]), N(e[3]), C.coq_bool(e[4]), N(e[5])))
+        elif k == 'pubret': evs.append('(PPublishRet %s)' % C.coq_bool(e[1]))
+        elif k == 'errh': evs.append('(PErrHandler %s)' % C.coq_bool(e[1]))
+        else: bad.append('unexpected: %s' % (e,))
+    return '(OPC %s %s %s %s %s)' % (cfg, inp, enc, C.coq_list(evs), C.coq_bool(g['failed'])), bad
+
+def run_glue(ctx, res, data):
+    pid = ctx['pid']
+    cases = []
+    for g in data.get('glue') or []:
+        res.evaluations += 1
+        t, bad = glue_term(g)
+        for b in bad:
+            res.violations.append(dict(signature='C18/glue', what=b, case=g))
+        cases.append((g, t))
+        key = ('glue', g['ack_errors'], g['modify'], g['errh'], g['orig'], g['has_op'], g['marshal_ok'], g['topic_ok'], g['pub_ok'], g['err'])
+        if not (g['orig'] and g['has_op'] and g['marshal_ok'] and g['topic_ok'] and g['pub_ok'] and g['modify'] != 2 and not g['err']):
+            res.nontrivial.add(key)
+    res.count('handler_branch_matrix_cases', len(cases))
+    for part, chunk in enumerate(C.chunks(cases, 600)):
+        r = C.coq_eval(pid, 'cases_glue_%d' % part, HEADER + 'Definition cases : list c18_onproc_case := %s.\n' % C.coq_list([c[1] for c in chunk]),
+                       [('R_mis', 'c18_onproc_mismatches cases'), ('R_vio', 'c18_onproc_violations cases')])
+        for i in r['R_vio']:
+            res.violations.append(dict(signature='C18/handler-branch', what='direct call of the request-reply command handler rejected by processed_ok (composed with the C02 Router model)', case=chunk[i][0]))
+        for i in r['R_mis']:
+            res.mismatches.append(dict(kind='Corr.C18.c18_onproc_mismatch (ReqReply/Processed.v on_processed vs handler.go + OnCommandProcessed + MarshalReply, direct call)', explained_by_violation=i in r['R_vio'], case=chunk[i][0]))
+    for c in data.get('api_checks') or []:
+        res.evaluations += 1
+        res.count('api_error_path_checks')
+        if not c['ok']:
+            res.violations.append(dict(signature='C18/api:' + c['name'], what='API glue: ' + c['name'] + ' - not as documented (' + c['info'] + ')', case=c))
 
 def run(ctx):
     tier, seed = ctx['tier'], ctx['seed']
